@@ -1059,3 +1059,72 @@ def default_once(ctx, res):
                    [f"{CREL}:{l}" for l in dict.fromkeys(bad[0].lines) if l]
                    if bad else None)
     res.floor(2)
+
+
+@rule("C13.remove-trait", ["C13"],
+      "remove_trait deletes the stored value straight from the instance "
+      "dictionary on every path that removes the instance trait: the "
+      "deletion is not routed through the class-level rule (Disallow, "
+      "ReadOnly, Event, Constant refuse or ignore it and the stale value "
+      "would stay readable through the C fast path)")
+def remove_trait_rule(ctx, res):
+    from .containers import FactFlow
+    repo = get_pyrepo(ctx)
+    mod = repo.module(HT)
+    fn = repo.func(HT, "HasTraits.remove_trait")
+    ps = [a.arg for a in fn.args.args]
+    selfn, namep = ps[0], ps[1]
+
+    class F(FactFlow):
+        def classify(s, e, node):
+            if isinstance(e, ast.Delete):
+                return [("DEL", False)]
+            if isinstance(e, ast.Call) and isinstance(e.func, ast.Attribute) \
+                    and e.func.attr == "pop" \
+                    and norm(e.func.value) == f"{selfn}.__dict__":
+                return [("POPV", False)]
+            if isinstance(e, ast.Call) and (
+                    norm(e.func) in ("delattr", "setattr")
+                    or (isinstance(e.func, ast.Attribute)
+                        and e.func.attr in ("reset_traits", "trait_set",
+                                            "trait_setq"))):
+                return [("VIA", False)]
+            return []
+
+        def step(s, st, ev, e, node):
+            if ev == "DEL":
+                t = norm(e.targets[0])
+                if t == f"{selfn}.__dict__[{namep}]":
+                    return st | {("DID", "value")}
+                if t.endswith(f"[{namep}]"):
+                    return st | {("DID", "itrait")}
+                return st
+            if ev == "POPV":
+                return st | {("DID", "value")}
+            s.via.append(e)
+            return st
+    fl = F(mod, fn, "HasTraits.remove_trait")
+    fl.via = []
+    fl.run(frozenset())
+    g = fl.cfg
+    n = 0
+    bad = None
+    for st in fl.states[g.exit.id]:
+        if ("DID", "itrait") not in st:
+            continue
+        n += 1
+        present_false = ("F", f"{namep} in {selfn}.__dict__") in st
+        if ("DID", "value") not in st and not present_false:
+            bad = st
+    res.instance("HasTraits.remove_trait", mod.loc(fn), removing_paths=n)
+    if n == 0:
+        raise AnalysisError("remove_trait: no path deletes the instance trait")
+    res.oblige(bad is None, "remove_trait:value-deleted", mod.loc(fn),
+               "a path removes the instance trait but leaves the value in "
+               "self.__dict__ (not deleted, not known absent)")
+    res.oblige(not fl.via, "remove_trait:direct",
+               mod.loc(fl.via[0]) if fl.via else mod.loc(fn),
+               f"`{norm(fl.via[0])[:60] if fl.via else ''}` routes the "
+               f"clean-up through attribute assignment/deletion, which the "
+               f"class-level trait governs once the instance trait is gone")
+    res.floor(1)
